@@ -113,7 +113,7 @@ func (c *ConnectionPool) Dial(ctx context.Context, ci ConnInfo) (Streamer, error
 	return connectionPoolStreamer{
 		Streamer: conn,
 		onerror: func() {
-			c.onerror(ci)
+			c.onerror(ci, conn)
 		},
 	}, nil
 }
@@ -158,8 +158,12 @@ func (c *ConnectionPool) CloseAll() error {
 	return nil
 }
 
-func (c *ConnectionPool) onerror(ci ConnInfo) {
-	_, _ = c.conns.Remove(ci.Addr().String(), func(conn Streamer, _ bool) error {
+func (c *ConnectionPool) onerror(ci ConnInfo, failed Streamer) {
+	_, _ = c.conns.Remove(ci.Addr().String(), func(conn Streamer, found bool) error {
+		if !found || conn != failed {
+			return util.ErrLockedSetIgnore
+		}
+
 		if i, ok := conn.(io.Closer); ok {
 			return errors.WithStack(i.Close())
 		}
